@@ -620,6 +620,20 @@ func excLookupE(m map[string]excEntry, key string) (excEntry, bool) {
 			return m[best], true
 		}
 	}
+	// the same construct with a quantity computed by another formula (an index i of an index loop where a range
+	// loop had rangeindex+1, (n+1)>>1 for (n>>1)+(n&1)): arithmetic over anonymous operands collapsed
+	{
+		nk := eraseArith(key)
+		best := ""
+		for k := range m {
+			if !strings.HasPrefix(k, "re:") && eraseArith(k) == nk && (best == "" || k < best) {
+				best = k
+			}
+		}
+		if best != "" {
+			return m[best], true
+		}
+	}
 	// pattern entries ("re:<regexp>"): an exception whose reason covers a family of constructs - every index
 	// of one container by one kind of value in one function - however the function spells them (one site
 	// behind a phi, or one site per branch after a guard-clause rewrite). Matched against the key with
@@ -675,6 +689,23 @@ func eraseLoose(key string) string {
 	key = strings.ReplaceAll(key, "φ", "_")
 	key = strings.ReplaceAll(key, "&_", "_")
 	key = strings.ReplaceAll(key, "*_", "_")
+	return key
+}
+
+var reArithLeaf = regexp.MustCompile(`\((_|\d+)(<<|>>|&\^|[-+*/%&|^])(_|\d+)\)`)
+
+// eraseArith: collapses arithmetic over anonymous operands and literals to one anonymous operand
+// ("((_>>1)+(_%2))" and "((_+1)>>1)" both become "_"): the same quantity computed by another formula.
+// Named operands (parameters, calls such as len(x)) are kept.
+func eraseArith(key string) string {
+	key = eraseLoose(key)
+	for i := 0; i < 6; i++ {
+		n := reArithLeaf.ReplaceAllString(key, "_")
+		if n == key {
+			break
+		}
+		key = n
+	}
 	return key
 }
 
